@@ -5,7 +5,7 @@ import sym
 
 CONFIGS_QUICK = ["F_all"]
 CONFIGS_THOROUGH = ["F_all", "F_def"]
-TECHNIQUE = 'static analysis: save/disable/restore on every exit (all paths of the three read_to_end! instantiations), loop decision table with loop-carried depth, ordering/dominance of position reads'
+TECHNIQUE = 'static analysis: save/disable/restore on every exit (all paths of the three read_to_end! instantiations), loop decision table with loop-carried depth, ordering/dominance of position reads, consumed=advanced path summaries of the source helpers (running counters from back edges)'
 EXPLANATION = (
     "For every instantiation of the read_to_end! macro (slice, buffered, async; found through macro provenance): the "
     "trim_text_start flag read at entry is disabled and written back on every path to a return (error, Eof and normal "
